@@ -49,7 +49,8 @@ LEVEL_NOTE = ("Crash = Python-level interruption (generator abandoned/closed, ex
               "the audit hook.")
 TECHNIQUE = "fault enumeration at every crash point + pull/call counters + audit log of file opens"
 
-SHAPES = ["seq", "source", "two", "acc", "split", "split2", "grow", "first", "last", "adjacent"]
+SHAPES = ["seq", "source", "two", "acc", "split", "split2", "grow", "first", "last", "adjacent",
+          "bare", "splitbare"]
 LATERS = [["run", "run"], ["run", "recompute", "run"], ["drop", "run"], ["hoist", "run"],
           ["recompute", "hoist_recompute", "run"], ["drop2", "run"]]
 
@@ -67,13 +68,13 @@ def cases(tier, seed):
                 for k in range(0, n):
                     crashes.append(["upstream", k])
                 for k in range(0, n_out):
-                    if shape != "last":
+                    if shape not in ("last", "bare", "splitbare"):
                         crashes.append(["downstream", k])
                 # the same faults raised as a KeyboardInterrupt (not an Exception subclass)
                 for k in range(0, n):
                     crashes.append(["upstream-interrupt", k])
                 for k in range(0, n_out):
-                    if shape != "last":
+                    if shape not in ("last", "bare", "splitbare"):
                         crashes.append(["downstream-interrupt", k])
                 for crash in crashes:
                     for li, later in enumerate(LATERS):
@@ -233,6 +234,8 @@ def ref_output(shape, flow):
         out = [Down(c)(Up(c)(v)) for v in vals]
     elif shape == "two":
         out = [Down(c)(Mid(c)(Up(c)(v))) for v in vals]
+    elif shape in ("bare", "splitbare"):
+        out = list(vals)
     elif shape == "first":
         out = [Down(c)(v) for v in vals]
     elif shape == "last":
@@ -267,7 +270,7 @@ class Pipeline(object):
         self.shape = shape
         self.flow = copy.deepcopy(flow)
         self.b0_bad = None
-        if shape in ("split", "split2"):
+        if shape in ("split", "split2", "splitbare"):
             hoist = None     # hoisting is Split's own business (it calls alter_sequence)
         vals = copy.deepcopy(flow)
         self.probe = Probe(self.trace, n=len(vals), make=lambda i: vals[i], fault_at=fault_at,
@@ -318,6 +321,17 @@ class Pipeline(object):
                                   (Up(c), C(f1, recompute=recompute), down)], bufsize=1000)
             self.start = lambda: _D(sp).run(probe)
             self._seq = lena.core.Sequence(Up(c), C(f1, recompute=recompute), down)
+        elif shape == "bare":
+            # the Cache alone (hoisting a single element: alter_sequence(cache))
+            cache = C(f1, recompute=recompute)
+            seq = lena.core.Sequence(cache)
+            self.start = lambda: _D(seq).run(probe)
+            self._seq = cache
+        elif shape == "splitbare":
+            # the Cache given bare as a branch of a Split
+            sp = lena.core.Split([C(f1, recompute=recompute)], bufsize=None)
+            self.start = lambda: _D(sp).run(probe)
+            self._seq = C(f1, recompute=recompute)
         elif shape == "grow":
             seq = lena.core.Sequence(Grow(c), C(f1, recompute=recompute), down)
             self.start = lambda: _D(seq).run(probe)
@@ -520,7 +534,7 @@ def _run_case(r, obs, d):
                          "%s gave %r, stored flow is %r" % (ctxs, got, stored))
             # (a Split reads its input block before it runs any branch: its own pulls
             # are not the Cache's upstream)
-            obs.check(pulls == 0 or shape in ("split", "split2"),
+            obs.check(pulls == 0 or shape in ("split", "split2", "splitbare"),
                       "replay-pulls-upstream:%s:%s" % (shape, how),
                       "%s pulled %d values from the upstream" % (ctxs, pulls))
             obs.check(p.c.up == 0 and p.c.fills == 0 and p.c.computes == 0 and
@@ -567,3 +581,5 @@ def _run_case(r, obs, d):
 
 
 RULE += (' Faults are raised both as Exception and as KeyboardInterrupt; flows with None / false bare values.')
+RULE += (' Shapes also include the Cache alone (alter_sequence of a single element) and the Cache '
+         'given bare as a branch of a Split.')
